@@ -16,7 +16,9 @@ import RV.Base.SetList
     and the deletion of an emptied named entry in `remove`;
   * `remove`'s walk: lazy `triples()` generator, per triple the loop over its contexts,
     the removal of the `None` entry when no asserted context is left, the deletion from
-    the indexes when no context is left.
+    the indexes when no context is left; both for a graph and for `context=None`;
+  * `__all_contexts` (registered graphs): `add`, `add_graph`, `remove_graph`, `contexts()`,
+    and `contexts(triple)` / the per-triple context generator of `triples`.
   Quoted statements are outside the property (`quoted = False` everywhere), so a context
   dictionary `{ctx: False, …}` is the *set* of its keys and dict equality is set equality.
 
@@ -75,6 +77,9 @@ structure Mem where
   dflt : Option (List Ctx) := none
   /-- `__contextTriples`, initially `{None: set()}` -/
   ctxT : List (Ctx × List Triple) := [(none, [])]
+  /-- `__all_contexts`: the registered graphs (a Python set of `Graph` objects, hashed and compared by
+      identifier; here the graph keys) -/
+  allc : List Nat := []
   /-- a Python exception was raised by a store operation -/
   err : Bool := false
   deriving Repr
@@ -170,14 +175,21 @@ def addTripleContext (m : Mem) (t : Triple) (ex : Bool) (c : Nat) : Mem :=
     ctxT := ctxTadd (ctxTadd m.ctxT none t) (some c) t
     err := m.err || (ex && getCtxsRaises m t) || (alookup m.ctxT none).isNone }
 
-/-- `Memory.add(triple, context)`: probe/insert `spo`, context bookkeeping, then `pos`, `osp`
+/-- the index and context part of `Memory.add`: probe/insert `spo`, context bookkeeping, then `pos`, `osp`
     only when the triple was new -/
-def Mem.add (m : Mem) (t : Triple) (c : Nat) : Mem :=
+def Mem.addCore (m : Mem) (t : Triple) (c : Nat) : Mem :=
   if t ∈ m.spo then addTripleContext m t true c
   else
     { addTripleContext { m with spo := m.spo ++ [t] } t false c with
       pos := sinsert m.pos t
       osp := sinsert m.osp t }
+
+/-- `if context is not None: self.__all_contexts.add(context)` -/
+def Mem.register (m : Mem) (c : Nat) : Mem := { m with allc := sinsert m.allc c }
+
+/-- `Memory.add(triple, context)` with `context` a graph (`add(t, None)` — a triple asserted in the union
+    only — has no caller among the modelled APIs and is not modelled) -/
+def Mem.add (m : Mem) (t : Triple) (c : Nat) : Mem := (m.register c).addCore t c
 
 /-- `__remove_triple_context(triple, ctx)` -/
 def removeTripleContext (m : Mem) (t : Triple) (ctx : Ctx) : Mem :=
@@ -263,11 +275,41 @@ def dropEmptyCtx (m : Mem) (req : Ctx) : Mem :=
     | some [] => { m with ctxT := aerase m.ctxT (some c) }
     | _ => m
 
-/-- `Memory.remove(pattern, context)` -/
+/-- `Memory.remove(pattern, context)`, `context` a graph (`some g`) or `None` (every graph).
+    The final clause `if pattern == (None, None, None) and context in self.__all_contexts and not
+    self.graph_aware: self.__all_contexts.remove(context)` never fires: `Memory.graph_aware = True`. -/
 def Mem.remove (m : Mem) (pat : Pat) (req : Ctx) : Mem :=
   match pat with
   | (none, none, none) => dropEmptyCtx (removeLoop m req false (ctxTget m req)) req
   | _ => dropEmptyCtx (removeLoop m req true (cands m pat)) req
+
+/-- `__contexts(triple)`: the graphs among the triple's context keys (`if ctx_str is not None`) -/
+def keysOf : List Ctx → List Nat
+  | [] => []
+  | none :: r => keysOf r
+  | some k :: r => k :: keysOf r
+
+def ctxKeys (m : Mem) (t : Triple) : List Nat := keysOf (getCtxs m t)
+
+/-- `Memory.contexts(triple=None)`: all registered graphs for `None` / `(None, None, None)`; for a triple,
+    `try: self.__spo[s][p][o]; return self.__contexts(triple) except KeyError: return ()` — a pattern with an
+    unbound position runs into the `KeyError` -/
+def Mem.contexts (m : Mem) : Pat → List Nat
+  | (none, none, none) => m.allc
+  | (some s, some p, some o) => if (s, p, o) ∈ m.spo then ctxKeys m (s, p, o) else []
+  | _ => []
+
+/-- `Memory.triples(pattern, context)` as the store yields it: each triple with `__contexts(triple)` -/
+def Mem.triplesC (m : Mem) (pat : Pat) (req : Ctx) : List (Triple × List Nat) :=
+  (triples m pat req).map (fun t => (t, ctxKeys m t))
+
+/-- `Memory.add_graph(graph)` (graph-aware store) -/
+def Mem.addGraph (m : Mem) (k : Nat) : Mem := m.register k
+
+/-- `Memory.remove_graph(graph)`: `self.remove((None, None, None), graph)`, then
+    `try: self.__all_contexts.remove(graph) except KeyError: pass` -/
+def Mem.removeGraph (m : Mem) (k : Nat) : Mem :=
+  { m.remove (none, none, none) (some k) with allc := sremove (m.remove (none, none, none) (some k)).allc k }
 
 /-! ### `Graph` over a `Memory` store (graph `g` = context `some g`) -/
 
@@ -346,6 +388,25 @@ def Mem.step (m : Mem) : Op → Mem
 
 def Mem.run (m : Mem) (ops : List Op) : Mem := ops.foldl Mem.step m
 
+/-- operations of a store-level history: the `Memory` API called directly (contexts are graphs of the
+    store, `remove` also with `None`), freely mixed with the `Graph`-level operations above -/
+inductive StOp
+  | add (t : Triple) (c : Nat)
+  | remove (pat : Pat) (ctx : Option Nat)
+  | addGraph (k : Nat)
+  | removeGraph (k : Nat)
+  | graph (op : Op)
+  deriving Repr
+
+def Mem.stStep (m : Mem) : StOp → Mem
+  | .add t c => m.add t c
+  | .remove pat ctx => m.remove pat ctx
+  | .addGraph k => m.addGraph k
+  | .removeGraph k => m.removeGraph k
+  | .graph op => m.step op
+
+def Mem.stRun (m : Mem) (ops : List StOp) : Mem := ops.foldl Mem.stStep m
+
 /-! ### an open `triples()` generator interleaved with mutations (small-step machine)
 
   The real generator copies key lists level by level while it advances.  The machine
@@ -393,7 +454,7 @@ def Iter.nextPinned (it : Iter) (m : Mem) : Iter × Option Triple :=
     else ({ it with pending := r }, none)
 
 inductive Ev
-  | mutate (op : Op)
+  | mutate (op : StOp)
   | load (ts : List Triple)
   | next
   deriving Repr
@@ -401,7 +462,7 @@ inductive Ev
 /-- yields of a schedule, each with the store states since the generator began (latest first) -/
 def yields (hist : List Mem) (m : Mem) (it : Iter) : List Ev → List (Triple × List Mem)
   | [] => []
-  | .mutate op :: es => yields (m.step op :: hist) (m.step op) it es
+  | .mutate op :: es => yields (m.stStep op :: hist) (m.stStep op) it es
   | .load ts :: es => yields hist m (it.load m ts) es
   | .next :: es =>
     match (it.next m).2 with
@@ -411,13 +472,13 @@ def yields (hist : List Mem) (m : Mem) (it : Iter) : List Ev → List (Triple ×
 /-- some step of the schedule raised -/
 def schedRaises (m : Mem) (it : Iter) : List Ev → Bool
   | [] => false
-  | .mutate op :: es => (m.step op).err || schedRaises (m.step op) it es
+  | .mutate op :: es => (m.stStep op).err || schedRaises (m.stStep op) it es
   | .load ts :: es => schedRaises m (it.load m ts) es
   | .next :: es => it.nextRaises m || schedRaises m (it.next m).1 es
 
 def yieldsPinned (hist : List Mem) (m : Mem) (it : Iter) : List Ev → List (Triple × List Mem)
   | [] => []
-  | .mutate op :: es => yieldsPinned (m.step op :: hist) (m.step op) it es
+  | .mutate op :: es => yieldsPinned (m.stStep op :: hist) (m.stStep op) it es
   | .load ts :: es => yieldsPinned hist m (it.load m ts) es
   | .next :: es =>
     match (it.nextPinned m).2 with
